@@ -184,7 +184,7 @@ class parse_criteria:
     # criteria strings of the three forms (concrete here: the regex decomposition runs natively); the compiled predicate is
     # checked on an arbitrary item (ghost argument)
     cases = [dict(criteria='>5'), dict(criteria='<5'), dict(criteria='>=5'), dict(criteria='<=-2.5'), dict(criteria='=7'), dict(criteria='<>7'),
-             dict(criteria='7'), dict(criteria='-2.5')]
+             dict(criteria='7'), dict(criteria='-2.5'), dict(criteria=7), dict(criteria=-2.5)]        # a bare value may be a number itself, not only text
     ghost = dict(a=NUMBER)
 
     def post(criteria, a, out):
@@ -200,7 +200,7 @@ class parse_criteria:
             return same(v, a >= 5)
         if criteria == '<=-2.5':
             return same(v, a <= -2.5)
-        if criteria == '=7' or criteria == '7':
+        if criteria == '=7' or criteria == '7' or (is_num(criteria) and criteria == 7):
             return same(v, a == 7)
         if criteria == '<>7':
             return same(v, a != 7)
